@@ -58,6 +58,16 @@ def config(rng, name, m, dname, with_pref=None):
     return {"name": name}
 
 
+def config_l1(desc) -> float:
+    """|pref|_1 (or weights): rounding noise of an aggregator is amplified by the magnitude of its configured per-row vector (a
+    preference vector spread over 6 decades multiplies noise on the small rows by the large entries), so errors are measured in
+    units of s x max(|w|_1, |pref|_1)."""
+    for key in ("pref", "weights"):
+        if desc.get(key) is not None:
+            return float(sum(abs(x) for x in desc[key]))
+    return 0.0
+
+
 def permute_config(desc, perm):
     """The configuration whose per-row vector (preference / weights / leak) is permuted along with the rows."""
     d = dict(desc)
@@ -123,7 +133,8 @@ def guard(desc, J: np.ndarray, dname: str, orders=None):
         tol = lam.max() * m * 1.1920929e-07  # the implementation uses torch.finfo().eps (float32) whatever the dtype
         if ((lam > 0.01 * tol) & (lam < 100 * tol)).any():
             return "alignedmtl_rank_ambiguous"
-        if dname == "float32" and (lam.min() / lam.max() < 1e-3) and (lam > 100 * tol).all():
+        kept = lam[lam >= 100 * tol]  # the eigenvalues the algorithm retains
+        if dname == "float32" and kept.size and kept.min() / kept.max() < 1e-3:
             return "alignedmtl_ill_conditioned_float32"
         return None
     if name == "Krum":
